@@ -1,12 +1,14 @@
 """C17 — unsafe index and SIMD code stays in bounds."""
-from vlib.runner import KH, run_kani_group
+import re
+from vlib.mo import *
+from vlib.runner import KH, run_kani_group, run_mir_obligations
 
-ENGINES = "K"
+ENGINES = "KM"
 LEVEL = "other"
 EXPLANATION = ("Kani/CBMC memory-safety checks (every pointer dereference, pointer arithmetic, slice index and get_unchecked precondition CBMC emits) over the real x86 SIMD kernels with a symbolic length "
                "covering the unrolled loop, the single-chunk loop and every tail length, on exact-size heap inputs; and over PackedLevel0's unchecked accessors / the visited bitset with arbitrary record words.")
 TRUSTED_BASE = ["Kani/CBMC pointer model", "stubs: FMA and AVX-512 arithmetic intrinsics return their accumulator (values are irrelevant to bounds); loads/stores are the real core::arch code"]
-NOT_COVERED = ["use-after-free across threads", "graphs larger than three nodes / FlatGraph search loops", "the graph construction path", "NEON kernels", "release-only paths behind debug_assert",
+NOT_COVERED = ["use-after-free across threads", "graphs larger than three nodes / FlatGraph search loops as executions (their call-site guards are decided structurally by O17.4)", "the graph construction path", "NEON kernels", "release-only paths behind debug_assert",
                "lengths above 4*W+W+3 (the loops are periodic in W beyond that; stated, not proven)"]
 FS = [("simd.rs", r"dot_f32_sse2"), ("simd.rs", r"dot_f32_avx2"), ("simd.rs", r"dot_f32_avx512")]
 KERNELS = [("dot", "binary"), ("sumsq", "unary"), ("l2", "binary"), ("dotnorms", "triple")]
@@ -39,5 +41,98 @@ HARNESSES += [
 MODS = {"simd.rs": "simd_proofs.rs", "ann_backend.rs": "ann_backend_proofs.rs"}
 
 
+def unchecked_call_guards(F):
+    """Caller-side contracts of the unchecked accessors inside FlatGraph's search code (the accessors themselves are Kani
+    obligations O17.2 / O17.3 under exactly these preconditions):
+      * neighbor_unchecked(d, i): i is an item of the range 0..count_unchecked(..) — or, in the prefetch look-ahead, the call
+        is reached only on the true arm of `i < neighbor_count` for exactly the index expression passed (ONLY_VIA), and every
+        caller passes a count_unchecked(..) result as neighbor_count;
+      * mark_if_unvisited_unchecked(n) / distance_to_unchecked(.., n): reached only on the false arm of
+        `n as usize >= self.len()` for the same n (ONLY_VIA)."""
+    import vlib.mir as _M
+    from vlib.mirflow import origin as _o
+    out = []
+    sites = 0
+    RANGE_ITEM = r"^\(\(\{call <(std::ops::)?Range<usize> as Iterator>::next\} as Some\)\.0: usize\)$"
+    for name, fn in sorted(F.items()):
+        if not name.startswith("ann_backend::FlatGraph::") or "verif_proofs" in name or "::tests::" in name:
+            continue
+        fc = None
+        for idx in sorted(fn.blocks):
+            b = fn.blocks[idx]
+            if b.cleanup or b.kind != "call":
+                continue
+            t = b.term or ""
+            m = re.search(r"= (?:ann_backend::)?(PackedLevel0::neighbor_unchecked|FlatSearchScratch::mark_if_unvisited_unchecked|FlatGraph::distance_to_unchecked)\(", t)
+            if not m:
+                continue
+            sites += 1
+            fc = fc or FnCheck(F, name)
+            a = _M._split_top(b.args)
+            here = Ev(re.escape(t.split(" -> ")[0]), kind="call", also=(lambda f, bb, _t, i=idx: bb.idx == i), name="%s at bb%d" % (m.group(1).split("::")[-1], idx))
+            if m.group(1).endswith("neighbor_unchecked"):
+                io = _o(fn, a[2])
+                if re.search(RANGE_ITEM, io):
+                    # the range this index is drawn from ends at a count_unchecked result
+                    ends = [_o(fn, mm.group(1)) for bb in fn.blocks.values() if not bb.cleanup for st in bb.stmts
+                            for mm in [re.search(r"Range::<usize> \{ start: const 0_usize, end: (?:copy |move )?(_\d+) \}", st)] if mm]
+                    if len(ends) == 1 and re.search(r"^call PackedLevel0::count_unchecked$", ends[0]):
+                        out.append(Result("holds", "%s bb%d: index drawn from 0..count_unchecked(..)" % (name.split("::", 2)[-1], idx), sample={"fn": name, "kind": "PROVENANCE", "index": io[:80]}))
+                    else:
+                        out.append(Result("violated", "%s bb%d: neighbor_unchecked index comes from a range that does not end at count_unchecked(..): %s" % (name, idx, ends), sample={"fn": name, "kind": "PROVENANCE"}))
+                    continue
+                # guarded form: Lt(<same index expression>, <a usize argument>)
+                # `i < n` may be written i < n (true arm), i >= n (false arm), n > i (true arm) or n <= i (false arm)
+                guards, garm = [], None
+                for bb in sorted((x for x in fn.blocks.values() if not x.cleanup and x.kind == "switch"), key=lambda x: x.idx):
+                    so = _o(fn, bb.switch_local)
+                    for rx, arm_ in ((r"^Lt\(%s, arg\(_\d+: usize\)\)$", "otherwise"), (r"^Ge\(%s, arg\(_\d+: usize\)\)$", "0")):
+                        if re.search(rx % re.escape(io), so):
+                            guards.append(bb)
+                            garm = garm or arm_
+                    for rx, arm_ in ((r"^Gt\(arg\(_\d+: usize\), %s\)$", "otherwise"), (r"^Le\(arg\(_\d+: usize\), %s\)$", "0")):
+                        if re.search(rx % re.escape(io), so):
+                            guards.append(bb)
+                            garm = garm or arm_
+                if not guards:
+                    out.append(Result("violated", "%s bb%d: neighbor_unchecked(dense_id, %s) is not guarded by `%s < neighbor_count`: slot indices at or past the record's neighbour count read beyond the node's "
+                                      "neighbour list (for the last node of an unpadded layout, beyond the allocation)" % (name.split("::", 2)[-1], idx, io[:60], io[:60]), sample={"fn": name, "kind": "ONLY_VIA", "index": io[:80]}))
+                    continue
+                go = _o(fn, guards[0].switch_local)
+                out.append(fc.only_via(here, Arm("^" + re.escape(go) + "$", {garm}, name="%s is %s" % (go[:70], "true" if garm == "otherwise" else "false"))))
+                cm = re.search(r"arg\((_\d+): usize\)", go.replace(io, "", 1))  # the bound, not the index expression
+                pos = int(cm.group(1)[1:]) - 1 if cm else None
+                # every caller passes count_unchecked(..) in that position
+                short = name.split("::")[-1]
+                for cname, cf in F.items():
+                    for cb in cf.blocks.values():
+                        if not cb.cleanup and cb.kind == "call" and re.search(r"= (?:ann_backend::)?FlatGraph::%s\(" % re.escape(short), cb.term or ""):
+                            ca = _M._split_top(cb.args)
+                            co = _o(cf, ca[pos]) if pos is not None and pos < len(ca) else "?"
+                            ok = bool(re.search(r"^call PackedLevel0::count_unchecked$", co))
+                            out.append(Result("holds" if ok else "violated", "%s bb%d passes `%s` as the neighbour count of %s" % (cname.split("::", 2)[-1], cb.idx, co[:60], short), sample={"fn": cname, "kind": "PROVENANCE"}))
+                continue
+            n = _o(fn, a[-1])
+            gre = "^Ge\\(\\{?%s\\}? as usize \\(IntToInt\\), call FlatGraph::len\\)$" % re.escape(re.escape(n))
+            gre = r"^Ge\(\{?" + re.escape(n) + r"\}? as usize \(IntToInt\), call FlatGraph::len\)$"
+            guards = [bb for bb in fn.blocks.values() if not bb.cleanup and bb.kind == "switch" and re.search(gre, _o(fn, bb.switch_local))]
+            if not guards:
+                out.append(Result("violated", "%s bb%d: %s on `%s` without a preceding `id as usize >= self.len()` test on the same id" % (name.split("::", 2)[-1], idx, m.group(1).split("::")[-1], n[:60]), sample={"fn": name, "kind": "ONLY_VIA"}))
+                continue
+            out.append(fc.only_via(here, Arm(gre, {"0"}, name="id < node count")))
+    if sites < 6:
+        return [Result("inconclusive", "expected at least 6 unchecked call sites in FlatGraph's search code, found %d" % sites)]
+    return out
+
+
+MOS = [
+    MO("O17.4/unchecked_call_guards", "FlatGraph search code: every neighbor_unchecked index is drawn from 0..count_unchecked(..) or guarded by `index < neighbor_count` (ONLY_VIA, with count_unchecked passed by every caller); "
+       "every mark_if_unvisited_unchecked / distance_to_unchecked id is guarded by `id as usize >= len()` (ONLY_VIA)", unchecked_call_guards,
+       functions=[("ann_backend.rs", n) for n in ("prefetch_level0_neighbor_lookahead", "search_layer0_exact", "search_at_layer_into", "greedy_descent_layer")]),
+]
+
+
 def run(tier, seed, notes):
-    return run_kani_group("C17", tier, "lib", MODS, HARNESSES, jobs=8, notes=notes)
+    obls = run_mir_obligations("C17", tier, MOS, notes)
+    obls += run_kani_group("C17", tier, "lib", MODS, HARNESSES, jobs=8, notes=notes)
+    return obls
